@@ -33,6 +33,7 @@ type R struct {
 	maxSamples int
 	viol       map[string]*Violation
 	distinct   map[string]map[uint64]struct{}
+	export     map[string]bool
 	Assume     []string
 	Caps       []string
 	Notes      map[string]any
@@ -174,6 +175,17 @@ func (r *R) Distinct(class, key string) bool {
 	return true
 }
 
+// ExportSet makes the driver union this class across shards by hash (instead of adding the
+// per-shard counts); use it for classes that are not partitioned by shard, e.g. states.
+func (r *R) ExportSet(class string) {
+	r.mu.Lock()
+	if r.export == nil {
+		r.export = map[string]bool{}
+	}
+	r.export[class] = true
+	r.mu.Unlock()
+}
+
 func (r *R) DistinctCount(class string) int {
 	r.mu.Lock()
 	defer r.mu.Unlock()
@@ -208,6 +220,7 @@ type out struct {
 	Counters   map[string]int64 `json:"counters"`
 	Max        map[string]int64 `json:"max"`
 	Distinct   map[string]int   `json:"distinct"`
+	Sets       map[string][]uint64 `json:"sets,omitempty"`
 	Samples    []any            `json:"samples"`
 	Violations []*Violation     `json:"violations"`
 	Assume     []string         `json:"assumptions"`
@@ -223,6 +236,17 @@ func (r *R) Write() {
 		Distinct: map[string]int{}, Samples: r.samples, Assume: r.Assume, Caps: r.Caps,
 		Notes: r.Notes, WallS: time.Since(r.start).Seconds()}
 	for k, m := range r.distinct {
+		if r.export[k] {
+			if o.Sets == nil {
+				o.Sets = map[string][]uint64{}
+			}
+			l := make([]uint64, 0, len(m))
+			for h := range m {
+				l = append(l, h)
+			}
+			o.Sets[k] = l
+			continue
+		}
 		o.Distinct[k] = len(m)
 	}
 	keys := make([]string, 0, len(r.viol))
